@@ -17,8 +17,9 @@ RULE = (
     'nothing; the material rebuilt from its reported X in mass mode reports the same x and X. Same for '
     'Substance.data_composite with atom counts. Non-trivial: >=2 components with distinct masses. Round 4: '
     'amounts in exponent notation, nucleons, Substance(proportion=p) alone and added to a Material. Later rounds: '
-    'operands re-read after a sum; augmented sums (total += part); substances added to materials. Distinct = '
-    'distinct case JSON.'
+    'operands re-read after a sum; augmented sums (total += part); substances added to materials. Rounds 7-8: '
+    'substance operands built from dictionaries, with whole and with fractional counts (strategy operand; known '
+    'finding C11-K1). Distinct = distinct case JSON.'
 )
 ASSUMPTIONS = ["relative tolerance 1e-9 on fractions", "proportions are written with at most 6 significant decimal digits"]
 NT_FLOOR = 0.4
